@@ -24,3 +24,17 @@ From HC Require Import Map3.Wf3 Map3.Wf3Dec.
 Theorem C02_oracle_wf3 `{Sig} : forall n s, wf3b n s = true <-> 0 < n /\ wf3 n s.
 Proof. exact wf3b_spec. Qed.
 Print Assumptions C02_oracle_wf3.
+
+(** The proved part of the invariant (full statement: every history of public calls with in-use darts keeps wf3
+    -- NOT proved for successful links and sews, see Map3/Wf3Proofs.v): allocation, slot reuse, removal, data-only
+    transactions, and every step that does not report success keep the 3-map invariant. *)
+From HC Require Import Map3.Wf3Proofs.
+Theorem C02_invariant_partial `{Sig} : forall fa st o, inv3 st ->
+  proved_step3 o = true \/ (forall x, fst (step3 fa st o) <> ROk x) ->
+  inv3 (snd (step3 fa st o)).
+Proof. exact inv3_step_partial. Qed.
+Print Assumptions C02_invariant_partial.
+
+Theorem C02_init `{Sig} : forall n ks, inv3 {| nd := n + 1; mem := blank; aks := ks |}.
+Proof. exact inv3_empty. Qed.
+Print Assumptions C02_init.
